@@ -17,12 +17,12 @@ from ..tlc import MachineryError
 CLEAR, EOD, FIRST = 256, 257, 258
 
 
-def lzw_width(tlen):
-    """code width the decoder uses while its table holds tlen entries (early change)"""
-    return 9 if tlen < 511 else 10 if tlen < 1023 else 11 if tlen < 2047 else 12
+def lzw_width(tlen, ec=1):
+    """code width the decoder uses while its table holds tlen entries (/EarlyChange ec: 1 = one code early)"""
+    return 9 if tlen < 512 - ec else 10 if tlen < 1024 - ec else 11 if tlen < 2048 - ec else 12
 
 
-def lzw_pack(codes):
+def lzw_pack(codes, ec=1):
     """codes: iterable of code values, written with the width schedule the *decoder* will be in
     (simulated here from the table length the decoder has when it reads each code)."""
     acc = 0
@@ -31,7 +31,7 @@ def lzw_pack(codes):
     n_since_clear = None      # None: before the first clear
     for c in codes:
         tlen = 258 if n_since_clear in (None, 0) else 258 + n_since_clear - 1
-        w = 9 if n_since_clear is None else lzw_width(tlen)
+        w = 9 if n_since_clear is None else lzw_width(tlen, ec)
         acc = (acc << w) | c
         nb += w
         while nb >= 8:
@@ -49,14 +49,17 @@ def lzw_pack(codes):
     return bytes(out)
 
 
-def lzw_codes(data, extra_clears=(), eod=True, clear_at=4096):
+def lzw_codes(data, extra_clears=(), eod=True, clear_at=4096, defer=0):
     """greedy LZW: clear-table first, again when the next free code would be `clear_at` (4096: table full;
-    real encoders also use 4094/4095), and before consuming input position p for p in extra_clears."""
+    real encoders also use 4094/4095), and before consuming input position p for p in extra_clears.
+    defer > 0: when the table is full (4096) go on for `defer` codes from the frozen table before clearing
+    (legal: the table simply stops growing); defer = None: never clear again."""
     codes = [CLEAR]
     table = {bytes([i]): i for i in range(256)}
     nxt = FIRST
     w = b""
     extra = set(extra_clears)
+    left = -1                   # >= 0: table frozen, codes left before the deferred clear (None: forever)
     for i, b in enumerate(data):
         if i in extra and w:
             codes.append(table[w])
@@ -64,15 +67,28 @@ def lzw_codes(data, extra_clears=(), eod=True, clear_at=4096):
             table = {bytes([k]): k for k in range(256)}
             nxt = FIRST
             w = b""
+            left = -1
         wc = w + bytes([b])
         if wc in table:
             w = wc
+        elif left != -1:
+            codes.append(table[w])
+            w = bytes([b])
+            if left is not None:
+                left -= 1
+                if left == 0:
+                    codes.append(CLEAR)
+                    table = {bytes([k]): k for k in range(256)}
+                    nxt = FIRST
+                    left = -1
         else:
             codes.append(table[w])
             table[wc] = nxt
             nxt += 1
             w = bytes([b])
-            if nxt >= clear_at:
+            if defer != 0 and nxt >= 4096:
+                left = defer
+            elif nxt >= clear_at:
                 codes.append(CLEAR)
                 table = {bytes([k]): k for k in range(256)}
                 nxt = FIRST
@@ -83,12 +99,12 @@ def lzw_codes(data, extra_clears=(), eod=True, clear_at=4096):
     return codes
 
 
-def lzw_encode(data, extra_clears=(), eod=True, clear_at=4096):
-    return lzw_pack(lzw_codes(data, extra_clears, eod, clear_at))
+def lzw_encode(data, extra_clears=(), eod=True, clear_at=4096, ec=1, defer=0):
+    return lzw_pack(lzw_codes(data, extra_clears, eod, clear_at, defer), ec)
 
 
-def lzw_ref_decode(enc):
-    """independent decoder (bit string based), stops at EOD"""
+def lzw_ref_decode(enc, ec=1):
+    """independent decoder (bit string based), stops at EOD, never grows the table beyond 4096 entries"""
     bits = "".join("{:08b}".format(b) for b in enc)
     p = 0
     table = None
@@ -111,15 +127,16 @@ def lzw_ref_decode(enc):
             e = table[c]
         elif c < len(table):
             e = table[c]
-            table.append(prev + e[:1])
-        elif c == len(table):
+            if len(table) < 4096:
+                table.append(prev + e[:1])
+        elif c == len(table) and len(table) < 4096:
             e = prev + prev[:1]
             table.append(e)
         else:
             raise ValueError("bad code")
         out += e
         prev = e
-        w = lzw_width(len(table))
+        w = lzw_width(len(table), ec)
     return bytes(out)
 
 
@@ -366,6 +383,10 @@ def self_check():
             for ca in (4096, 4094):
                 need(lzw_ref_decode(lzw_encode(d, xc, True, ca)) == d, "LZW %d bytes" % len(d))
         need(lzw_ref_decode(lzw_encode(d, (), False)) == d, "LZW without EOD")
+        need(lzw_ref_decode(lzw_encode(d, ec=0), ec=0) == d, "LZW EarlyChange 0")
+        need(lzw_ref_decode(lzw_encode(d, defer=None)) == d, "LZW clear never repeated")
+        need(lzw_ref_decode(lzw_encode(d, defer=700, ec=0), ec=0) == d, "LZW deferred clear, EarlyChange 0")
+        need(lzw_ref_decode(lzw_encode(d) + b"\n\x00junk") == d, "LZW data after EOD")
         need(rl_ref_decode(rl_encode(d)) == d, "RunLength greedy")
         need(rl_ref_decode(rl_encode(d, random.Random(1))) == d, "RunLength random runs")
         need(rl_ref_decode(rl_encode(d, random.Random(2), eod=False)) == d, "RunLength no EOD")
@@ -377,6 +398,7 @@ def self_check():
     base = bytes(rng.randrange(256) for _ in range(9000))
     for n in list(range(240, 270)) + list(range(750, 790)) + list(range(1770, 1830)) + list(range(3800, 3900, 7)):
         need(lzw_ref_decode(lzw_encode(base[:n])) == base[:n], "LZW boundary %d" % n)
+        need(lzw_ref_decode(lzw_encode(base[:n], ec=0), ec=0) == base[:n], "LZW boundary %d EarlyChange 0" % n)
     need(a85_words_to_bytes([[60, 33, 33, 33, 62], [33] * 5, [60, 62]]) ==
          base64.a85decode(b"<!!!>!!!!!<>"), "ASCII85 group arithmetic")
     for (c, k, b) in [(1, 1, 8), (3, 2, 8), (2, 5, 8), (1, 10, 1), (3, 3, 1), (1, 3, 4), (2, 2, 16), (4, 7, 8)]:
